@@ -79,12 +79,14 @@ def generated_items(rng, n):
 
 
 def run_items(ck, items, tag):
-    work = os.path.join(common.WORK, tag)
+    tag = e2e.utag(tag)
+    work = os.path.join(common.WORK, tag + "_runs")
     shutil.rmtree(work, ignore_errors=True)
     for i, it in enumerate(items):
         it["dir"] = os.path.join(work, "c%d" % i)
     summ = e2e.evaluate(ck, tag, items)
     shutil.rmtree(work, ignore_errors=True)
+    e2e.sweep()
     return summ
 
 
